@@ -207,6 +207,13 @@ func (g *didGen) buildDoc(id string, k int, shape int) (string, *didtypes.DIDDoc
 		relRef("auth", vmid)
 	case 9: // no authentication at all
 		vm(vmid, didtypes.ES256K_2019, key.b58)
+	case 10: // duplicate ids: a dedicated authentication method and a plain verification method share one id, different keys
+		vm(vmid, didtypes.ES256K_2019, g.keys[(k+1)%len(g.keys)].b58)
+		relDed("auth", vmid, didtypes.ES256K_2019, key.b58)
+	case 11: // duplicate ids among verification methods: the first one wins
+		vm(vmid, didtypes.ES256K_2019, key.b58)
+		vm(vmid, didtypes.ES256K_2019, g.keys[(k+1)%len(g.keys)].b58)
+		relRef("auth", vmid)
 	}
 	return ref, doc, vmid
 }
@@ -248,9 +255,9 @@ func (g *didGen) sign(k int, data *didtypes.DIDDocument, seq uint64, tamper int)
 
 func (g *didGen) shape() int {
 	if g.r.Chance(70) {
-		return pick(g.r, []int{0, 0, 0, 1, 5})
+		return pick(g.r, []int{0, 0, 1, 5, 10, 11})
 	}
-	return g.r.Intn(10)
+	return g.r.Intn(12)
 }
 
 func (g *didGen) from() string { return g.accts[g.r.Intn(len(g.accts))].Addr.String() }
@@ -316,8 +323,11 @@ func (g *didGen) msg() (string, string) {
 		return line, from
 	case k < 80: // update, usually signed by the current key over the current sequence
 		signer := g.curKey[did]
-		if g.r.Chance(12) {
+		if g.r.Chance(20) {
 			signer = g.r.Intn(len(g.keys)) // a rotated-out or foreign key
+			if g.r.Bool() {
+				signer = (g.curKey[did] + 1) % len(g.keys) // the key listed beside the controlling one
+			}
 		}
 		newKey := g.curKey[did]
 		if g.r.Chance(35) {
@@ -416,6 +426,9 @@ func genDidHistory(r *RNG, nBlocks int) []string {
 		g.add("BLOCK %d", g.now)
 		g.lines = append(g.lines, blockLines...)
 		g.add("ENDBLOCK")
+		if r.Chance(15) {
+			g.add("EXPORTIMPORT")
+		}
 		g.add("DUMP did")
 		for _, d := range g.dids {
 			g.add("Q did.DID %s", toks(d))
